@@ -1662,6 +1662,19 @@ theorem nsec3_usability_pinned :
     SdnsVerif.Gen.C02.nsec3_safe_algorithms = [1] ∧ SdnsVerif.Gen.C02.nsec3_safe_flags = [0, 1] := by
   decide
 
+/-- `typesSet`, the bitmap test every NSEC / NSEC3 check of the tree is written
+in, is plain membership for EVERY 16-bit RR type (searched over the whole
+field on a battery around each type: the type itself, `t ^ 64`, `t ± 64`,
+`t mod 64`, `t ± 256`, `t mod 256`) — as the model's `typesSet` is by
+definition, so the NODATA theorems speak about SVCB, HTTPS, CAA, URI and
+private-use types exactly as about A. -/
+theorem types_set_exact_pinned :
+    SdnsVerif.Gen.C02.typesset_mismatches = [] ∧
+    (∀ t : Nat, typesSet [t] [t] = true) ∧ (∀ t u : Nat, t ≠ u → typesSet [t] [u] = false) := by
+  refine ⟨by decide, ?_, ?_⟩
+  · intro t; simp [typesSet]
+  · intro t u h; simp [typesSet]; exact fun e => h e
+
 /-- shape of `Resolver.authority` in the current tree (go/ast walk): the
 provenance mark sits under `denialSecure ∧ ¬CD ∧ isNegative` (inside
 `r.dnssec ∧ verified`), AD is assigned from `denialSecure` and nowhere else,
